@@ -11,6 +11,31 @@ FILES = ["cspuz/graph.py", "cspuz/array.py", "cspuz/constraints.py", "cspuz/expr
 
 def build(d):
     s = Solver()
+    if d["form"] == "grid2":
+        # history: two boards of the same shape constrained on ONE Solver (multi-layer puzzles): each must obey the rule on its own
+        h, w = d["h"], d["w"]
+        n, edges = h * w, spec.grid_edges(h, w)
+        a1 = E.bool_items(s, n, "vars")
+        a2 = E.bool_items(s, n, "vars")
+        xv = list(s.variables)
+        G.active_vertices_not_adjacent_and_not_segmenting(s, BoolArray2D(a1, (h, w)))
+        G.active_vertices_not_adjacent_and_not_segmenting(s, BoolArray2D(a2, (h, w)))
+        import z3 as _z3
+
+        def spec_z3_2(env):
+            out = []
+            for items in (a1, a2):
+                act = [ref.rb(x, env) for x in items]
+                out.append(_z3.And(spec.not_adjacent(n, edges, act), spec.connected(n, edges, [_z3.Not(a) for a in act])))
+            return _z3.And(out)
+
+        def spec_py_2(assign):
+            for items in (a1, a2):
+                act = [bool(ref.pyeval(x, assign)) for x in items]
+                if not (spec.not_adjacent_py(n, edges, act) and spec.connected_py(n, edges, [not a for a in act])):
+                    return False
+            return True
+        return query.Built(s, xv, spec_z3_2, spec_py_2)
     if d["form"] == "grid":
         h, w = d["h"], d["w"]
         n, edges = h * w, spec.grid_edges(h, w)
@@ -76,6 +101,9 @@ def instances(tier, rng):
             gl.append(("rnd%d" % k, n, graphs.random_multigraph(rng, n, rng.randint(n - 2, n + 4))))
     for nm, n, es in gl:
         out.append(dict(name="%s/na/list" % nm, form="list", n=n, edges=es, fn="na", mode="vars"))
+        if n >= 2 and es:
+            for cm in ("c0T", "c0F"):      # a Python constant among the items of a plain list (never two constants on one edge)
+                out.append(dict(name="%s/na/list/%s" % (nm, cm), form="list", n=n, edges=es, fn="na", mode=cm))
         out.append(dict(name="%s/nans/array1d" % nm, form="array1d", n=n, edges=es, fn="nans", mode="vars"))
         if es:
             for how in ("rev", "alt"):
@@ -85,7 +113,13 @@ def instances(tier, rng):
             out.append(dict(name="%s/nans/array1d/hist" % nm, form="array1d", n=n, edges=es, fn="nans", mode="vars", history=len(es) // 2))
         if n <= 4:
             out.append(dict(name="%s/nans/array1d/and" % nm, form="array1d", n=n, edges=es, fn="nans", mode="and"))
+    out += _grid2_instances(tier)
     return out
+
+
+def _grid2_instances(tier):
+    return [dict(name="grid2_%dx%d/nans" % (h, w), form="grid2", h=h, w=w, fn="nans", mode="vars")
+            for (h, w) in ([(2, 2), (2, 3), (3, 3)] if tier == "quick" else [(2, 2), (2, 3), (3, 2), (3, 3), (2, 4)])]
 
 
 def spot(tier, rng):
@@ -111,6 +145,20 @@ def spot(tier, rng):
                     g[c] = True
             pats.append(g)
         out.append(dict(name="spot-grid%dx%d/nans" % (h, w), form="grid", h=h, w=w, fn="nans", mode="vars", patterns=pats))
+    # two boards on one Solver, each pinned to a diagonal chain: every ordered pair of chains (chains in opposite directions need
+    # opposite rank orders, which is only possible if the two calls do not share auxiliaries)
+    for (h, w) in ([(4, 4)] if tier == "quick" else [(4, 4), (4, 5), (5, 5)]):
+        def board(cells):
+            g = [False] * (h * w)
+            for (y, x) in cells:
+                g[y * w + x] = True
+            return g
+        m = min(h, w)
+        base = [board([(i, i) for i in range(m - 1)]), board([(i, i) for i in range(1, m)]), board([(i, w - 1 - i) for i in range(m - 1)]),
+                board([(i, w - 1 - i) for i in range(1, m)]), board([(1, 1), (2, 2), (1, 3)]), board([(2, 1), (1, 2), (2, 3)]),
+                board([(0, 1), (1, 0)]), board([]), board([(i, i) for i in range(m)])]
+        pats = [a + b for a in base for b in base]
+        out.append(dict(name="spot-grid2_%dx%d/nans" % (h, w), form="grid2", h=h, w=w, fn="nans", mode="vars", patterns=pats))
     return out
 
 
